@@ -75,5 +75,13 @@ CLAIMED = {
         'Ed25519 itself and more than 4 validators are outside the claim. int/int true division, if the code uses it, is modelled exactly through '
         'its rounding boundary (sx/zint.py).',
    technique='bounded symbolic execution of the real source with z3 (SX, integer theory): solver verdict per path, replay of models on the untouched library'),
+ 'C20': dict(
+   text='CHANNEL CLAUSES ONLY. Bounded symbolic execution of the real AdnlChannel.__init__/encrypt/decrypt, key-id and AES key/iv derivation code with '
+        'X25519 (uninterpreted, ECDH commutativity), AES-CTR (XOR with an uninterpreted key stream) and SHA-256 (injective) as environment stubs: for '
+        'both peers\' secrets and 32-byte ids symbolic (all three id orderings solver-decided) and plaintexts of 0..64 bytes symbolic, each side decrypts '
+        'exactly what the other encrypts in both directions, the packet is key-id || sha256(plaintext) || ciphertext with the key id the peer expects, '
+        'and the AES key/iv are key[0:16]+hash[16:32] / hash[0:4]+key[20:32].',
+   note='NOT covered (no solver encoding within reach, DESIGN.md section 7): "a signature verifies under the matching key and fails otherwise" and the mnemonic '
+        'clauses - libsodium Ed25519 and PBKDF2-HMAC-SHA512; they are exercised on fixed vectors as stub-contract validation only. Trusted: the stub contracts.'),
 }
 NOT_APPLICABLE = {}
